@@ -70,9 +70,10 @@ type mp struct {
 	podKind  map[string]string
 	requeued [][2]string
 	// number of "list the pods without a node" calls: moves iff a scheduling pass started
-	pendingLists int
-	failPodList  bool
-	deadlinePool string // GetInstanceTypes of this NodePool reports context.DeadlineExceeded
+	pendingLists  int
+	failPodList   bool
+	reconcileErrs int
+	deadlinePool  string // GetInstanceTypes of this NodePool reports context.DeadlineExceeded
 	// NodePools that must not be used for new NodeClaims right now (name -> why)
 	poolOut map[string]string
 }
